@@ -88,3 +88,16 @@ Lemma model_is_source_Newton_lemma : model_is_source_Newton.
 Proof. exact (conj src_newton_solve_f64 (conj src_newton_solve_vec64 (conj src_newton_solve_jacobian_vec64 src_jacobian_f64))). Qed.
 
 End SrcEqNewton.
+
+(* ------------------------------------------------------------------ the callees the call table names
+   Matrix::solve_basic is tied to its source in Proofs/SrcEqSolve.v (src_solve_basic), Mat64::jacobian above.  The remaining
+   one, Vec64::norm_inf (src/vector/vec_f64.rs; regenerated in gen/SrcVec64.v, with f64::abs instantiated by the arithmetic's
+   abs): the source reads self.vec[i] a second time inside the `if`, the loop formulation of Model/Newton.v reads it once. *)
+From OV Require gen.SrcVec64.
+Lemma callee_norm_inf {F : SArith} (v : list (T (SA F))) :
+  SrcVec64.s_norm_inf abs v = Newton.norm_inf (NReal (SA F)) v.
+Proof.
+  unfold SrcVec64.s_norm_inf, Newton.norm_inf. cbn [NReal NA NR mag]. apply bind_ext; intros x0.
+  apply for_ext; intros i r Hi. destruct (rd v i) as [x|k]; cbn [bind]; [|reflexivity].
+  destruct (ltb r (abs x)); reflexivity.
+Qed.
